@@ -27,7 +27,9 @@ git checkout -q -- . ; git clean -fdq -e out -e target -e Cargo.lock
 echo "demo rc without=$rc_without with=$rc_with"
 # now against /repo with the checks
 cd $REPO && git diff --quiet || { echo "$REPO dirty"; exit 2; }
-git apply "$OUT/change$N.diff" || exit 2
+# a change made against an older tree may have been rebased by hand onto the current one
+RP="$OUT/change$N.diff"; [ -f "$OUT/change$N.rebased.diff" ] && RP="$OUT/change$N.rebased.diff"
+git apply "$RP" || exit 2
 caught=""; results=""
 for c in $ID $EXTRA; do
   o=$(cd $V && ./check $c quick 2>&1); rc=$?
@@ -37,7 +39,7 @@ for c in $ID $EXTRA; do
   [ $rc -eq 1 ] && caught="$caught $c"
 done
 git -C $REPO checkout -- .
-mkdir -p "$DEST"; cp "$OUT/change$N.diff" "$DEST/patch.diff"; cp "$OUT/demo$N.rs" "$DEST/demo.rs"
+mkdir -p "$DEST"; cp "$RP" "$DEST/patch.diff"; [ "$RP" != "$OUT/change$N.diff" ] && cp "$OUT/change$N.diff" "$DEST/patch.original.diff"; cp "$OUT/demo$N.rs" "$DEST/demo.rs"
 python3 - "$ID" "$N" "$rc_without" "$rc_with" "$nfail" "$caught" "$results" "$place" "$runcmd" <<'PY'
 import json,sys
 ID,N,rw,rc,nf,caught,results,place,runcmd=sys.argv[1:10]
